@@ -279,6 +279,32 @@ class DivAnalysis:
             return None
         return "every reaching definition is a constant >= 1 or an increment of such a counter"
 
+    def counter_info(self, name: str):
+        """(loop, guard atoms) when `name` is a counter: initialised to 0 outside loops, one `+= 1` inside a loop."""
+        inits, incs = [], []
+        for n in self.cfg.stmt_nodes():
+            st = n.stmt
+            if n.kind != "stmt":
+                continue
+            if isinstance(st, ast.Assign) and len(st.targets) == 1 and isinstance(st.targets[0], ast.Name) and st.targets[0].id == name:
+                inits.append(n)
+            elif isinstance(st, ast.AugAssign) and isinstance(st.target, ast.Name) and st.target.id == name:
+                incs.append(n)
+        if len(inits) != 1 or len(incs) != 1:
+            return None
+        try:
+            zero = Normaliser().norm(inits[0].stmt.value).const_value() == 0
+        except Unsupported:
+            zero = False
+        inc = incs[0].stmt
+        if not zero or self.loops.get(id(inits[0].stmt)) or not isinstance(inc.op, ast.Add) or not (
+                isinstance(inc.value, ast.Constant) and inc.value.value == 1):
+            return None
+        lp = self.loops.get(id(inc), [])
+        if not lp:
+            return None
+        return lp[-1], set(guard_atoms(self, incs[0], resolved=True))
+
     def prove_factor(self, f: ast.expr, div: Division, node: Node, facts: Dict[str, str], fname: str) -> Tuple[str, str, bool, str]:
         try:
             r = self.resolve(f, node)
@@ -313,6 +339,15 @@ class DivAnalysis:
             why = self.positive_counter(f.id, node)
             if why:
                 return (key0, "counter", True, why)
+            # counter dominance: f counts a superset of what a guarded non-zero counter g counts  =>  f >= g > 0
+            ci = self.counter_info(f.id)
+            if ci is not None:
+                for fk in facts:
+                    if fk.isidentifier() and fk != f.id:
+                        cg = self.counter_info(fk)
+                        if cg is not None and cg[0] is ci[0] and cg[1] >= ci[1]:
+                            return (key0, "counter-dominance", True,
+                                    f"`{f.id}` is incremented whenever `{fk}` is (its guard set is a subset) and `{fk}` is non-zero here")
         # affine with loop bounds and contract minimums: show factor >= 1 (or <= -1)
         aff = self._affine_positive(f, r, div, node, fname)
         if aff is not None:
